@@ -528,9 +528,14 @@ func checkScanCap(c *Ctx, rule string, fs []*ssa.Function) int {
 				if ok && mx.Value != nil {
 					v, _ = constant.Int64Val(mx.Value)
 				}
-				if !ok || v < 1<<30 {
+				if !ok {
+					// a limit worked out at run time (the size of the input, say): not a fixed ceiling a line can exceed
+					c.undecided(rule, fname(f)+":scanner token limit", call.Pos(), "Buffer is called with a limit computed at run time ("+short(newTB(f).T(buf[0].Common().Args[2]).String())+"); whether a line can be longer is not decided")
+					return
+				}
+				if v < 1<<30 {
 					good = false
-					why = fmt.Sprintf("Buffer max is %d (or not constant); lines beyond it end the scan silently", v)
+					why = fmt.Sprintf("Buffer max is %d; lines beyond it end the scan silently", v)
 				}
 				for _, s := range scans {
 					if !domInstr(buf[0], s) {
